@@ -9,7 +9,9 @@ CONSTANTS
   Targets = {0}
   Corruptions <- NoCorruption
   NT = 2
-  FollowRetries = FALSE
+  FollowRetries = TRUE
+  FollowAppend = TRUE
+  ResyncChecksRound = TRUE
   MaxAgg = 2
   QCap = 3
   Linger = TRUE
